@@ -858,19 +858,27 @@ def transport(ctx, sized):
     for seq, enc, _ in wire_jobs:
         if __import__("time").time() - t_wire > (120 if thorough else 40):  # a (changed) implementation that stalls: enough seen
             break
-        try:
-            outs, sr = run_tcp(lambda: pair_session(seq, enc, 5), 20)
-        except Exception as e:
-            outs, sr = [[3, "session:" + type(e).__name__]], None
+        # real sockets on the real clock: an unexpected outcome is repeated once with generous time limits before it is
+        # judged, so that a loaded machine cannot turn a slow correct run into an alarm (a wrong decoding is wrong again)
+        for sock_to, wall in ((5, 20), (30, 120)):
+            try:
+                outs, sr = run_tcp(lambda: pair_session(seq, enc, sock_to), wall)
+            except Exception as e:
+                outs, sr = [[3, "session:" + type(e).__name__]], None
+            if not sr and outs == [[0, r[0], expected_info(r[0], r[1], r[2])] for r in seq] + [[2]]:
+                break
         judge(seq, enc, ["kernel"], "tcp", outs, sr)
         n_wire += 1
     ctx.count("transport_tcp_sequences", n_wire)
     b = primary[0]
     lens = list(range(b - 30, b - 16))
-    try:
-        outs = run_tcp(lambda: server_session(lens, "utf-8", 5), 40)
-    except Exception as e:
-        outs = [{"command": "session", "got": [3, type(e).__name__], "encoded": []}]
+    for sock_to, wall in ((5, 40), (30, 180)):  # same rule: one repetition with generous limits before judging
+        try:
+            outs = run_tcp(lambda: server_session(lens, "utf-8", sock_to), wall)
+        except Exception as e:
+            outs = [{"command": "session", "got": [3, type(e).__name__], "encoded": []}]
+        if not judge_session(outs, lens):
+            break
     ctx.case(("session", "tcp", tuple(lens)))
     ctx.traces_impl += 1
     ctx.count("session_tcp_commands", len(outs))
